@@ -10,10 +10,10 @@ shred::World with outcome and projected state compared after every call, (3) imp
 random single-thread histories (and, for C08, multi-thread call/return histories with canaries)
 recorded from the real World and validated by TLC against WorldTrace.tla.  The verdict is always
 an invariant of WorldTrace (InvC08 / InvC09) failing on a trace of the real code."""
-import hashlib, json, os
+import hashlib, json, os, time
 from vlib import *  # noqa
 
-MODULES = ["World", "MCWorld", "WorldTrace"]
+MODULES = ["World", "MCWorld", "WorldTrace", "WorldCell"]
 FEATURES = ("x-world",)
 
 TRACE_INV = {"C08": "InvC08", "C09": "InvC09"}
@@ -65,12 +65,34 @@ def world_mc(ctx, prop, steps, view, emit_from=None, shapes="ShapesSmall", meta=
     return res
 
 
+def world_cell_mc(ctx, threads, maxops):
+    """The AtomicRefCell counter protocol at instruction level refines the cell of World.tla with one
+    linearisation point per operation: the assumption behind the linearizability check."""
+    consts = {"Threads": "{%s}" % ",".join(str(i) for i in range(1, threads + 1)), "MaxOps": maxops}
+    invs, props = ["InvCell", "InvOutcome"], ["RuleShared"]
+    res = tlc_mc(ctx, "WorldCell", cfg_text(constants=consts, invariants=invs, properties=props), workers=4, timeout=900)
+    if res["violated"]:
+        rp = ctx.save_replay("model-WorldCell-%s.txt" % res["violated"], tail(res["out"], 300))
+        raise ToolError("WorldCell (model of atomic_refcell's counter) violates %s: a defect of the specification, see %s"
+                        % (res["violated"], rp))
+    ctx.cov["states"] += res["distinct"]
+    ctx.cov["transitions"] += res["states"]
+    ctx.cov["model_runs"].append({"module": "WorldCell", "label": "atomic_refcell counter protocol", "constants": consts,
+                                  "invariants": invs, "action_properties": props, "states_generated": res["states"],
+                                  "distinct": res["distinct"], "wall_s": res["wall_s"], "exhaustive": True})
+
+
 def world_validate(ctx, prop, trace, nt, nd, what):
     """TLC validates an event trace of the real World; verdict by the property's invariant."""
     if not os.path.exists(trace) or os.path.getsize(trace) == 0:
         return 0
     invs = [TRACE_INV[prop], "InvHarness"]
+    t0 = time.time()
     res = tlc_trace(ctx, "WorldTrace", trace, invs, constants=_consts(nt, nd))
+    log("  WorldTrace %s: %d events validated in %.1fs" % (what, max(res["states"] - 1, 0), time.time() - t0))
+    ctx.cov["model_runs"].append({"module": "WorldTrace", "label": "trace validation (%s)" % what, "invariants": invs,
+                                  "constants": _consts(nt, nd), "events": max(res["states"] - 1, 0),
+                                  "wall_s": round(time.time() - t0, 1), "accepted": res["accepted"]})
     ctx.cov["states"] += res["states"]
     ctx.cov["transitions"] += max(res["states"] - 1, 0)
     if res["accepted"]:
@@ -90,10 +112,12 @@ def world_validate(ctx, prop, trace, nt, nd, what):
 def world_s2i(ctx, prop, replay_path, variants, label):
     """spec -> impl: every emitted behaviour on a real World, compared after every call."""
     out = ctx.fresh("ws2i", "ndjson")
+    t0 = time.time()
     st = run_bin(ctx, "world", ["replay", "--in", replay_path, "--out", out, "--variants", variants, "--seed", ctx.seed,
                                 "--ntypes", 2, "--ndyns", 2, "--keep", 150], features=FEATURES)
     if st["behaviours"] == 0:
         raise ToolError("no TLC behaviour was replayed (%s)" % label)
+    log("  replay %s: %d runs in %.1fs" % (label, st["runs"], time.time() - t0))
     ctx.cov["impl_runs"].append({
         "kind": "spec->impl replay of TLC behaviours on a real shred::World (%s)" % label,
         "behaviours": st["behaviours"], "runs": st["runs"], "calls_compared": st["calls"], "agree": st["agree"],
@@ -156,9 +180,12 @@ def world_family(ctx, prop):
     # (2) spec -> impl
     r = world_mc(ctx, prop, steps=3 if q else 4, view="MCView", emit_from=1, label="emit-exhaustive")
     world_s2i(ctx, prop, r["replay"], variants=2, label="every (state, call, outcome) within %d calls" % (3 if q else 4))
-    r = world_mc(ctx, prop, steps=12 if q else 16, view="MCView", emit_from=12 if q else 16, shapes="ShapesOpt",
-                 guards=4, simulate=1500 if q else 25000, label="emit-simulation", workers=4)
-    world_s2i(ctx, prop, r["replay"], variants=1, label="simulated behaviours of %d calls" % (12 if q else 16))
+    if not q:
+        # long behaviours chosen by TLC's simulator (it evaluates Emit on every successor of the last
+        # step, so each of the 4 x 100 random walks yields a bundle of sibling behaviours)
+        r = world_mc(ctx, prop, steps=14, view="MCView", emit_from=14, shapes="ShapesOpt", guards=4, simulate=100,
+                     label="emit-simulation", workers=4)
+        world_s2i(ctx, prop, r["replay"], variants=1, label="simulated behaviours of 14 calls")
     # (3) impl -> spec
     if q:
         world_random(ctx, prop, blocks=24, length=250)
@@ -166,11 +193,12 @@ def world_family(ctx, prop):
         for k in range(4):
             world_random(ctx, prop, blocks=150, length=300, seed_off=k)
     if prop == "C08":
+        world_cell_mc(ctx, threads=3, maxops=3 if q else 4)
         if q:
-            world_threads(ctx, prop, blocks=10, rounds=6, ops=30)
+            world_threads(ctx, prop, blocks=8, rounds=5, ops=24)
         else:
             for k in range(4):
-                world_threads(ctx, prop, blocks=60, rounds=8, ops=40, seed_off=k)
+                world_threads(ctx, prop, blocks=25, rounds=8, ops=40, seed_off=k)
     ctx.cov["exhaustive"] = False
     ctx.assumptions += [
         "TLC explores World.tla exhaustively only within the stated constants (2 types x 2 dynamic ids, <= 3 live guards, "
